@@ -130,11 +130,39 @@ func (V *Verifier) useSpecFun(fc *FuncCtx, sf *SpecFunc, sym string, sorts []str
 func (V *Verifier) vcText(ob *Obligation, withModel bool) string {
 	var b strings.Builder
 	b.WriteString("(set-option :produce-models true)\n(set-logic ALL)\n")
-	if V.needPow2 {
-		b.WriteString(pow2Def() + "\n")
+	// only the prelude definitions this VC (transitively) mentions, in definition order
+	var body strings.Builder
+	for _, d := range ob.Decls {
+		body.WriteString(d + "\n")
 	}
-	for _, l := range V.prelude {
-		b.WriteString(l + "\n")
+	for _, f := range ob.Facts {
+		body.WriteString(f + "\n")
+	}
+	body.WriteString(ob.Goal)
+	text := body.String()
+	pre := V.prelude
+	if V.needPow2 {
+		pre = append([]string{pow2Def()}, pre...)
+	}
+	need := make([]bool, len(pre))
+	for changed := true; changed; {
+		changed = false
+		for i, l := range pre {
+			if need[i] {
+				continue
+			}
+			sym := preludeSym(l)
+			if sym == "" || strings.Contains(text, sym) {
+				need[i] = true
+				text += "\n" + l
+				changed = true
+			}
+		}
+	}
+	for i, l := range pre {
+		if need[i] {
+			b.WriteString(l + "\n")
+		}
 	}
 	for _, d := range ob.Decls {
 		b.WriteString(d + "\n")
@@ -229,7 +257,7 @@ func (V *Verifier) solveOne(i int, ob *Obligation, opts SolveOpts) {
 	want := ob.Expect
 	if want == "sat" {
 		// vacuity cover: only a refutation (unsat) is an alarm; quantified preconditions often answer unknown
-		v, out, secs := runSolver(solvers[0], file, 3)
+		v, out, secs := runSolver(solvers[0], file, 1)
 		ob.Time += secs
 		ob.Output = fmt.Sprintf("[%s %.2fs] %s", solvers[0].name, secs, strings.TrimSpace(firstLines(out, 2)))
 		if v == "unsat" {
@@ -431,4 +459,26 @@ func (V *Verifier) ispow2Prelude() {
 		ds = append(ds, "(= x "+pow2(k).String()+")")
 	}
 	V.addPrelude("ispow2", "(define-fun g_ispow2 ((x Int)) Bool (or "+strings.Join(ds, " ")+"))")
+}
+
+// preludeSym extracts the symbol a prelude line defines or constrains ("" = always include).
+func preludeSym(l string) string {
+	for _, p := range []string{"(define-fun-rec ", "(define-fun ", "(declare-fun "} {
+		if strings.HasPrefix(l, p) {
+			rest := l[len(p):]
+			if k := strings.IndexAny(rest, " ("); k > 0 {
+				return rest[:k]
+			}
+		}
+	}
+	if strings.HasPrefix(l, "(assert ") {
+		// axiom about an uninterpreted prelude function: include when that function is used
+		if k := strings.Index(l, "(g_"); k >= 0 {
+			rest := l[k+1:]
+			if e := strings.IndexAny(rest, " )"); e > 0 {
+				return rest[:e]
+			}
+		}
+	}
+	return ""
 }
